@@ -5,6 +5,7 @@ link between its spec and permutations of the jobs.  Core only, no Mathlib.
 import Rl4co.Env.Smtwtp
 import Rl4co.Spec.Smtwtp
 import Rl4co.Proofs.TspfamAvail
+import Rl4co.Proofs.TspfamParams
 
 namespace Rl4co.Spec.Smtwtp
 
@@ -39,10 +40,7 @@ def availEnv : AvailEnv env where
   inv_step := fun _ _ _ _ _ _ => trivial
   mask_avail := fun _ _ _ _ h => h
   step_avail := fun _ _ _ => rfl
-  step_done := by
-    intro i s a
-    show decide (cnt (i.n + 1) (upd s.avail a false) ≤ 0) = decide (cnt (i.n + 1) (upd s.avail a false) = 0)
-    exact decide_eq_decide.mpr Nat.le_zero
+  step_done := fun i s a => (doneCmp_ok (cnt (i.n + 1) (upd s.avail a false))).2.2.2
   reset_done := fun _ => rfl
   reset_cnt := fun i => cnt_ne_zero i.n
 
